@@ -124,5 +124,21 @@ P("C11",
   assumptions=["a piece for a request already served on the connection is answered with reject (documented writer behaviour) and is modelled so"],
   units=[
    U("c11.wire", "c11", "TestWire", "peerwriter bytes == reference encoding; peerreader(stream, any fragmentation) == sent messages; upload counter == payload received",
-     Q(3000, 8), T(400000), min_nontrivial_frac=0.2),
+     Q(3000, 8), T(400000), min_nontrivial_frac=0.2, shrinktime="10s"),
+  ])
+
+P("C12",
+  level_text="Bounded random exploration of MSE handshakes over an in-memory duplex transport with generated read fragmentation in both directions: rain<->rain, and "
+             "rain against an independent reference endpoint whose two pads are steered over 0..512 (boundary-biased; optionally ending in a prefix of the "
+             "synchronisation marker), with generated keys (equal or one bit apart), cipher offers, selection policies and initial payload sizes 0..65535. Oracle: both "
+             "sides fail or both succeed; on success they agree on one offered cipher and every byte written by either side (initial payload first) is read unchanged; "
+             "different keys never complete; matching keys with intersecting offer/policy always complete.",
+  level_note="Trusted: harness/refmse (written from the MSE specification; DH and RC4 primitives from the Go standard library), harness/chunkconn. "
+             "rain's own pad lengths are random (crypto/rand) and only sampled; the reference side's pads are steered. Policy clauses are decided by the btconn/session units when listed.",
+  technique="property-based testing (rapid): differential/interoperability against an independent reference endpoint + round-trip of the byte stream",
+  rule="pairing x key pair x offer x policy x steered pads x initial payload x read schedules x post-handshake writes; non-trivial = a reference pairing with a pad at a boundary "
+       "value, or any fragmented read schedule",
+  assumptions=["fault-free transport; a side that fails closes its end (as the real callers do)"],
+  units=[
+   U("c12.mse", "c12", "TestMSE", "handshake agreement + byte-exact duplex stream for all pads/chunkings/keys/offers", Q(3000, 6), T(400000), min_nontrivial_frac=0.4, shrinktime="10s"),
   ])
